@@ -87,6 +87,8 @@ impl Permissions {
 pub struct FileType { pub dir: bool, pub link: bool }
 impl FileType {
     pub fn is_dir(&self) -> (r: bool) ensures r == self.dir { self.dir }
+    pub fn is_symlink(&self) -> (r: bool) ensures r == self.link { self.link }
+    pub fn is_file(&self) -> (r: bool) ensures r == (!self.dir && !self.link) { !self.dir && !self.link }
 }
 pub struct Metadata { pub dir: bool, pub link: bool, pub file: bool }
 impl Metadata {
@@ -173,6 +175,17 @@ impl World {
                 }),
             r is Err && final(self).faults@ == old(self).faults@ ==> r->Err_0.not_found
                 && (if t.mt_follows() { !old(self).fs().resolves(t.mt_path()) } else { !old(self).fs().has(t.mt_path()) }),
+            r is Err && final(self).faults@ > old(self).faults@ ==> !r->Err_0.not_found,
+    { unimplemented!() }
+
+    // std::fs::metadata(path): stat(2), follows the last component
+    #[verifier::external_body]
+    pub fn fs_metadata<P: AsRef<Path>>(&mut self, p: P) -> (r: Result<Metadata, IoError>)
+        ensures final(self).proc@ == old(self).proc@, final(self).fs() == old(self).fs(), final(self).faults@ >= old(self).faults@,
+            r matches Ok(m) ==> final(self).faults@ == old(self).faults@ && old(self).fs().resolves(p.path_view()) && !m.link
+                && m.dir == (old(self).fs().node(old(self).fs().follow(p.path_view())->0) is Dir)
+                && m.file == (old(self).fs().node(old(self).fs().follow(p.path_view())->0) is File),
+            r is Err && final(self).faults@ == old(self).faults@ ==> r->Err_0.not_found && !old(self).fs().resolves(p.path_view()),
             r is Err && final(self).faults@ > old(self).faults@ ==> !r->Err_0.not_found,
     { unimplemented!() }
 
